@@ -51,7 +51,11 @@ Failures(T, i, g2) ==
         ELSE {})
   \cup (IF T.light = 1 THEN {} ELSE UNION { GetterClauses(e.objs[j], j) : j \in 1..Len(e.objs) })
 
-TraceInit == tid \in 1..Len(Traces) /\ l = 0 /\ gh = <<InitGhost>>
+\* traces recorded by the drivers start at a freshly constructed object; traces of the repository's tests (light) may start at a copy,
+\* whose specified meaning is that of the table it was copied from
+GhostOfTable(o) == LET t == TabOf(o) IN Ghost(Known(t), t.lo)
+TraceInit == /\ tid \in 1..Len(Traces) /\ l = 0
+             /\ gh = IF Traces[tid].light = 1 THEN <<GhostOfTable(Traces[tid].init[1])>> ELSE <<InitGhost>>
 
 TraceNext ==
   LET T == Traces[tid] IN
